@@ -269,13 +269,50 @@ def w_xff(ctx, wid, seed):
                 return
 
 
+def w_huge(ctx, wid, seed):
+    """the widths of the push that carries a compiled sub-script: bodies of 75 / 76, 255 / 256 and 65535 / 65536 bytes and beyond (direct push, PUSHDATA1,
+    PUSHDATA2, PUSHDATA4) - the last one needs about a hundred 520-byte literals inside one bracket, given as one argument where it fits and split over
+    arguments (`[lit` `lit` ... `lit]`) otherwise"""
+    import random
+    rnd = random.Random(seed)
+    for target in (75, 76, 255, 256, 65535, 65536, 65537, 70000):
+        lits = []
+        size = 0
+        while size < target:
+            room = target - size
+            n = min(520, room - 3) if room > 80 else max(1, room - (2 if room > 77 else 1))
+            if n >= 256 and room - (n + 3) in (1,):
+                n -= 5
+            if n < 1:
+                break
+            b = bytes(rnd.getrandbits(8) | 0x20 for _ in range(n))          # (no byte of a one-byte literal is a small number)
+            lits.append(b)
+            size += len(A.minimal_push(b))
+        body = b''.join(A.minimal_push(b) for b in lits)
+        want = A.minimal_push(body).hex()
+        texts = ['0x' + b.hex() for b in lits]
+        forms = [('split', ['[' + texts[0]] + texts[1:-1] + [texts[-1] + ']'] if len(texts) > 1 else ['[' + texts[0] + ']'])]
+        one = '[' + ' '.join(texts) + ']'
+        if len(one) < 120000:
+            forms.append(('one-argument', [one]))
+        for form, argv in forms:
+            case = dict(kind='huge-bracket', body_bytes=len(body), form=form, literals=len(lits))
+            ctx.case('huge:%d:%s' % (len(body), form), True, case, 'sub-script-push-width:%d' % (1 if len(body) < 76 else (2 if len(body) < 256 else (3 if len(body) < 65536 else 5))))
+            g = harness().req(kvline('asm', args=','.join(a.encode().hex() for a in argv)))
+            if g.get('hex') != want:
+                got = g.get('hex', str(g))
+                ctx.violations.append(dict(campaign='huge', why='a bracketed sub-script whose body has %d bytes (%s) assembles to %s..., the push of the body starts %s' % (len(body), form, got[:12], want[:12]),
+                                           case=case, observed=got[:40], expected=want[:40], refails=3))
+                return
+
+
 def run(tier, t0):
     W = core.WORKERS
     n = 2500 if tier == 'quick' else 40000
     tasks = [(w_tokens, dict(examples=n)) for _ in range(W)]
     tasks += [(w_deep, dict(examples=n // 4)) for _ in range(max(2, W // 4))]
     tasks += [(w_tokens, dict(examples=150 if tier == 'quick' else 4000, real=True)) for _ in range(max(2, W // 4))]
-    tasks += [(w_exhaustive_hex, dict(lo=0, hi=256, two=False)), (w_xff, dict())]
+    tasks += [(w_exhaustive_hex, dict(lo=0, hi=256, two=False)), (w_xff, dict()), (w_huge, dict())]
     step = 65536 // 16
     tasks += [(w_exhaustive_hex, dict(lo=i * step, hi=(i + 1) * step, two=True)) for i in range(16)]
     m = core.parallel(PID, tasks)
@@ -288,6 +325,10 @@ def toks_from_json(argv):
 
 
 def replay(rec):
+    if rec['case'].get('kind') == 'huge-bracket':
+        ctx = core.Ctx(PID)
+        w_huge(ctx, 0, 0)
+        return (not ctx.violations), str(ctx.violations[:1])[:300]
     # replay by argv: re-run the real assembler and compare with the recorded expectation
     argv = rec['case']['argv']
     g = Harness('plain').req(kvline('asm', args=','.join(a.encode().hex() for a in argv)))
